@@ -75,9 +75,9 @@ Fixpoint lx_go (st : lxstate) (s : string) (out : list ltok) : list ltok :=
       | XToken acc => rev (TkValue (srev acc) :: out)
       | XComment _ => rev (TkComment :: out)
       | XStringQuote acc =>
-          match v with Cur => rev (TkLexPanic :: out) | Fix => rev (TkStringLit (srev acc) :: out) end
+          match v with Cur => rev (TkLexPanic :: out) | Fix | Fix2 => rev (TkStringLit (srev acc) :: out) end
       | XEscaped _ | XString _ =>
-          match v with Cur => rev (TkLexPanic :: out) | Fix => rev (TkUnterminated :: out) end
+          match v with Cur => rev (TkLexPanic :: out) | Fix | Fix2 => rev (TkUnterminated :: out) end
       end
   | String c r =>
       match st with
@@ -98,7 +98,7 @@ Fixpoint lx_go (st : lxstate) (s : string) (out : list ltok) : list ltok :=
           else let (st', out') := lx_search c (TkStringLit (srev acc) :: out) in lx_go st' r out'
       | XComment nonempty =>
           if (cn c =? 10) || (cn c =? 13) then
-            if nonempty || match v with Cur => false | Fix => true end then
+            if nonempty || match v with Cur => false | Fix | Fix2 => true end then
               let (st', out') := lx_search c (TkComment :: out) in lx_go st' r out'
             else rev (TkLexPanic :: out)
           else lx_go (XComment true) r out
